@@ -1,8 +1,8 @@
 #!/bin/sh
-# Offline set-up of the overlay venv used by every check (idempotent).
+# Offline set-up of the overlay venv used by every check (idempotent). The venv lives next to this tree (<root>/.venv).
 set -e
 cd "$(dirname "$0")/.."
-V=/verif/.venv
+V="$(pwd)/.venv"
 if [ ! -x "$V/bin/python" ] || ! "$V/bin/python" -c "import z3" 2>/dev/null; then
   rm -rf "$V"
   /venv/bin/python -m venv "$V"
